@@ -202,6 +202,8 @@ def api_part(ctx):
 
 def run(ctx):
     ctx.broken += common.proof_stage(ctx, THEOREMS)
+    # the concrete Lean parser model transcribes the plugins (speedup included): full-tree correspondence on their configurations
+    common.plugin_model_tie(ctx, 200 if ctx.quick() else 2500, None)
     trig, per_rule = plugin_triggers()
     for p, rules in per_rule.items():
         for rn, cs in rules.items():
